@@ -134,7 +134,7 @@ def call_builtin(I, name, args, kwargs, fr, node):
         return VNone()
     if name == 'open':
         ctx.trust('assumed: open()/write()/close() of the ./log file in DoLog do not raise (I/O failure is outside the contracts)')
-        return ctx.alloc(HObj('iface:file', 'obj', {}, closed=False))
+        return ctx.alloc(HObj('iface:osfile', 'obj', {}, closed=False))
     if name == 'sorted':
         raise Unsupported('sorted')
     if name == 'locals':
